@@ -136,6 +136,23 @@ func main() {
 	os.Exit(cmdCheck(prop, tier, ph))
 }
 
+// evidenceDir / replayDir can be redirected by the mutation tooling
+// (tools/try_seeded.sh) so that trial runs against scratch trees do not
+// overwrite the evidence of the registered checks.
+func evidenceDir() string {
+	if d := os.Getenv("VERIF_EVIDENCE_DIR"); d != "" {
+		return d
+	}
+	return filepath.Join(root, "evidence")
+}
+
+func replayDir() string {
+	if d := os.Getenv("VERIF_REPLAY_DIR"); d != "" {
+		return d
+	}
+	return filepath.Join(root, "replays")
+}
+
 func seedEnv() uint64 {
 	s := os.Getenv("VERIF_SEED")
 	if s == "" {
@@ -308,7 +325,7 @@ type foundAt struct {
 }
 
 func gorace(prefix string) string {
-	return "halt_on_error=0 exitcode=0 atexit_sleep_ms=0 suppress_equal_stacks=0 suppress_equal_addresses=0 log_path=" + prefix
+	return "halt_on_error=0 exitcode=0 atexit_sleep_ms=0 history_size=4 suppress_equal_stacks=0 suppress_equal_addresses=0 log_path=" + prefix
 }
 
 // runWorker starts one worker process for [from,to) and returns its report.
@@ -319,6 +336,9 @@ func runWorker(b *builds, prop string, ph phase, seed, from, to uint64, id int, 
 	}
 	out := filepath.Join(scratch, "out", fmt.Sprintf("w%d.json", id))
 	args := []string{"-prop", prop, "-part", ph.Part, "-seed", strconv.FormatUint(seed, 10), "-from", strconv.FormatUint(from, 10), "-to", strconv.FormatUint(to, 10), "-out", out}
+	if st := os.Getenv("XPCHECK_SHRINK_TIME"); st != "" {
+		args = append(args, "-shrink-time", st)
+	}
 	env := os.Environ()
 	for _, x := range extra {
 		if strings.HasPrefix(x, "ENV:") {
@@ -586,6 +606,13 @@ func replayOnce(b *builds, path string, race bool, trace bool) (code int, out st
 
 func cmdCheck(prop, tier string, phases []phase) int {
 	seed := seedEnv()
+	if os.Getenv("XPCHECK_SHRINK_TIME") == "" {
+		if tier == "thorough" {
+			os.Setenv("XPCHECK_SHRINK_TIME", "120s")
+		} else {
+			os.Setenv("XPCHECK_SHRINK_TIME", "20s")
+		}
+	}
 	needRace := false
 	for _, p := range phases {
 		needRace = needRace || p.Race
@@ -632,7 +659,7 @@ func cmdCheck(prop, tier string, phases []phase) int {
 
 	// file, confirm and classify the violations: one report per class
 	findings := loadFindings()
-	os.MkdirAll(filepath.Join(root, "replays"), 0o755)
+	os.MkdirAll(replayDir(), 0o755)
 	sort.SliceStable(allFound, func(i, j int) bool { return allFound[i].Viol.Class < allFound[j].Viol.Class })
 	seenClass := map[string]bool{}
 	exit := 0
@@ -646,7 +673,7 @@ func cmdCheck(prop, tier string, phases []phase) int {
 		rf := replayFile{Property: prop, Kind: f.Viol.Kind, Class: f.Viol.Class, Detail: f.Viol.Detail, Race: f.race, Seed: seed, Run: f.run,
 			Minimised: f.Confirmed, Scenario: f.Minimised, Original: f.Original, Trace: f.Trace, All: f.All}
 		name := fmt.Sprintf("%s-%d-%d.json", prop, seed, f.run)
-		path := filepath.Join(root, "replays", name)
+		path := filepath.Join(replayDir(), name)
 		data, _ := json.MarshalIndent(&rf, "", " ")
 		if err := os.WriteFile(path, data, 0o644); err != nil {
 			die("%v", err)
@@ -661,6 +688,21 @@ func cmdCheck(prop, tier string, phases []phase) int {
 				die("replaying %s failed:\n%s", path, out)
 			}
 			ok = code == 1 && strings.Contains(out, "class="+f.Viol.Class)
+		}
+		if !ok && f.Confirmed && len(f.Original) > 0 {
+			// the minimised scenario does not reproduce outside the process that
+			// minimised it: fall back to the unminimised trace
+			rf.Scenario, rf.Minimised, rf.Trace = f.Original, false, nil
+			data, _ = json.MarshalIndent(&rf, "", " ")
+			if err := os.WriteFile(path, data, 0o644); err != nil {
+				die("%v", err)
+			}
+			for try := 0; try < 5 && !ok; try++ {
+				code, out := replayOnce(b, path, f.race, false)
+				lastOut = out
+				ok = code == 1 && strings.Contains(out, "class="+f.Viol.Class)
+			}
+			f.Confirmed = false
 		}
 		if !ok {
 			die("a violation (%s: %s) was observed during the batch but its replay file %s does not reproduce it in a fresh process; treating this as harness trouble, not as a verdict\n%s", f.Viol.Class, f.Viol.Detail, path, lastOut)
@@ -742,9 +784,9 @@ func writeEvidence(prop, tier string, seed uint64, executed uint64, nontriv map[
 		"wall_s":     round1(wall),
 		"violations": nviol,
 	}
-	os.MkdirAll(filepath.Join(root, "evidence"), 0o755)
+	os.MkdirAll(evidenceDir(), 0o755)
 	data, _ := json.MarshalIndent(ev, "", " ")
-	if err := os.WriteFile(filepath.Join(root, "evidence", prop+".json"), data, 0o644); err != nil {
+	if err := os.WriteFile(filepath.Join(evidenceDir(), prop+".json"), data, 0o644); err != nil {
 		die("%v", err)
 	}
 }
